@@ -460,7 +460,11 @@ class CellDriver:
         elif kind == 'prio' and apps:
             self.op_prio(rng.choice(apps), rng.choice([0, 1, 5, 10, 50, 100]))
         elif kind == 'move_app' and apps:
-            self.op_move_app(rng.choice(apps), self.gen_alloc_key())
+            name = rng.choice(apps)
+            self.op_move_app(name, self.gen_alloc_key())
+            if rng.random() < 0.3:
+                # deleted right after its assignment moved, before a cycle has looked at the placement
+                self.op_del_app(name)
         elif kind == 'add_server' and len(servers) < self.pf.max_servers + 3:
             self.op_add_server()
         elif kind == 'del_server' and len(servers) > 1:
